@@ -1,2 +1,58 @@
-(* placeholder, filled in below *)
-From QV Require Import Base.Mat C01.Model C01.Spec.
+(* C01/Props.v : property C01 (index / execution part).  Statements only; proofs are in
+   ProofsSV / ProofsCtrl / ProofsRun / ProofsFused.  Models: C01/Model.v, spec: C01/Spec.v + Base/Mat.v.
+   All theorems are universally quantified over the carrier (any commutative semiring), the number
+   of qubits, the qubit placement (any order, any adjacency), the matrix and the state.
+   Inputs the real code rejects (and that the hypotheses exclude): duplicate / overlapping /
+   out-of-range qubits, states of the wrong length; more than 52 einsum characters (n + k > 52)
+   raise NotImplementedError in the real code and are not distinguished by the model.
+   Satisfiability of the hypotheses: C01/Examples.v. *)
+From Coq Require Import List Bool Arith Lia.
+From QV Require Import Base.Mat C01.Model C01.Spec C01.Lib C01.ProofsSV C01.ProofsCtrl C01.ProofsMat
+  C01.ProofsRun C01.ProofsFused.
+Import ListNotations.
+
+(* the einsum string of prepare_strings / apply_gate_string applies M to the named qubits *)
+Theorem apply_gate_plain_ok : forall (T : Type) (K : ops T), semiring K ->
+  forall n qs (M : mat T) (v : vec T),
+  NoDup qs -> (forall q, In q qs -> q < n) -> length v = 2 ^ n ->
+  apply_gate_plain K n qs M v = mvmul K (embed K n qs M) v.
+Proof. exact @apply_gate_plain_eq. Qed.
+Print Assumptions apply_gate_plain_ok.
+
+(* controlled branch (transpose by control_order, update the all-ones slice, transpose back);
+   cs = Gate.control_qubits, i.e. sorted; any number of controls 0..n-k *)
+Theorem apply_gate_ctrl_ok : forall (T : Type) (K : ops T), semiring K ->
+  forall n cs ts (M : mat T) (v : vec T),
+  incr_from 0 cs -> (forall c, In c cs -> c < n) -> NoDup ts -> (forall t, In t ts -> t < n) ->
+  (forall t, In t ts -> ~ In t cs) -> length v = 2 ^ n ->
+  apply_gate_ctrl K n cs ts M v = mvmul K (cembed K n cs ts M) v.
+Proof. exact @apply_gate_ctrl_eq. Qed.
+Print Assumptions apply_gate_ctrl_ok.
+
+(* a gate as qibo stores it: flag is_controlled_by, controls in the order given by the user *)
+Theorem apply_gate_ok : forall (T : Type) (K : ops T), semiring K ->
+  forall n (g : gate) (v : vec T), gate_wf n g -> length v = 2 ^ n ->
+  apply_gate K n g v = mvmul K (gate_op K n g) v.
+Proof. exact @apply_gate_eq. Qed.
+Print Assumptions apply_gate_ok.
+
+(* the execution loop applies the gates in queue order *)
+Theorem execute_ok : forall (T : Type) (K : ops T), semiring K ->
+  forall n (gs : list gate) (v : vec T), Forall (gate_wf n) gs -> length v = 2 ^ n ->
+  execute K n gs v = mvmul K (circ_op K n gs) v.
+Proof. exact @execute_eq. Qed.
+Print Assumptions execute_ok.
+
+(* matrix_fused on all qubits (= Circuit.unitary) is the ordered product of the gate operators *)
+Theorem unitary_ok : forall (T : Type) (K : ops T), semiring K ->
+  forall n (gs : list (gate (T:=T))), Forall (gate_wf n) gs -> Forall (gate_shape_ok) gs ->
+  unitary K n gs = circ_op K n gs.
+Proof. exact @unitary_eq. Qed.
+Print Assumptions unitary_ok.
+
+Theorem unitary_is_run : forall (T : Type) (K : ops T), semiring K ->
+  forall n (gs : list gate) (v : vec T), Forall (gate_wf n) gs -> Forall (gate_shape_ok) gs ->
+  length v = 2 ^ n ->
+  mvmul K (unitary K n gs) v = execute K n gs v.
+Proof. exact @unitary_run_eq. Qed.
+Print Assumptions unitary_is_run.
